@@ -107,7 +107,7 @@ func (o jsonObject) pathIdent(pathObject jsonObject, options []Option) [8]byte {
 		}
 	}
 	e, _ := NewJsonNode(id)
-	return e.hashCode([]Option{})
+	return e.hashCode(options)
 }
 
 func (o jsonObject) Diff(n JsonNode, options ...Option) Diff {
